@@ -160,7 +160,8 @@ class C12(core.Property):
     keyed, lam = case['keyed'], case.get('lam', 0.0)
     copt, sopt = case['copt'], case['sopt']
     bkey, backend = self.backend_of(kind, case)
-    key = (kind, keyed, lam, bkey, tuple(copt), tuple(sopt), case['batching'], case.get('mu'), case.get('lr'))
+    key = (kind, keyed, lam, bkey, tuple(copt), tuple(sopt), case['batching'], case.get('mu'), case.get('lr'),
+           case.get('clip'))
     if key in self._algs:
       return self._algs[key]
     m, hp = self.mods, self.hparams(case['batching'])
@@ -175,7 +176,11 @@ class C12(core.Property):
         a = m['hyp_cluster'].hyp_cluster(self.pel[keyed], self.mk_opt(copt), self.mk_opt(sopt), php, hp,
                                          regularizer=reg)
       elif kind == 'mimelite':
-        a = m['mime_lite'].mime_lite(self.pel[keyed], self.mk_opt(copt), hp, php, case['lr'], regularizer=reg)
+        # `clip`: None, or a "no clipping" bound of a sweep ('inf', 1e30, 1e39 = inf in float32): the reduction to FedAvg
+        # must hold for all of them
+        clip = None if case.get('clip') is None else float(case['clip'])
+        a = m['mime_lite'].mime_lite(self.pel[keyed], self.mk_opt(copt), hp, php, case['lr'], regularizer=reg,
+                                     client_delta_clip_norm=clip)
       elif kind == 'mime':
         a = m['mime'].mime(self.pel[keyed], self.mk_opt(copt), hp, php, case['lr'], regularizer=reg)
       elif kind == 'apfl':
@@ -243,6 +248,7 @@ class C12(core.Property):
         case['copt'] = ['sgd', rng.choice([0.25, 0.125]), 0.0]
         case['lr'] = rng.choice([1.0, 1.0, 0.5])
         case['sopt'] = ['sgd', case['lr'], 0.0]
+        case['clip'] = rng.choice([None, None, 'inf', 1e30, 1e39])
       elif kind == 'mime':
         case['lr'] = rng.choice([1.0, 0.5])
         if rng.random() < 0.6:
@@ -271,6 +277,8 @@ class C12(core.Property):
       yield {**case, 'keyed': False}
     if case.get('lam'):
       yield {**case, 'lam': 0.0}
+    if case.get('clip') is not None:
+      yield {**case, 'clip': None}
     if case.get('backend', 'jit') != 'jit':
       yield {**case, 'backend': 'jit'}
     elif False:
@@ -467,6 +475,8 @@ class C12(core.Property):
     tags = [f'kind={kind}', f'keyed={case["keyed"]}', f'copt={case["copt"][0]}', f'sopt={case["sopt"][0]}',
             f'batching={case["batching"]}', f'rounds={len(case["rounds"])}', f'backend={case.get("backend", "jit")}',
             f'regulariser={bool(case.get("lam"))}']
+    if kind == 'mimelite':
+      tags.append(f'clip={case.get("clip")}')
     totals = [sum(len(c['y']) for c in co) for co in case['rounds']]
     tags.append(f'all_empty_round={any(t == 0 for t in totals)}')
     try:
@@ -478,7 +488,10 @@ class C12(core.Property):
                      key=f'C12/{kind}/raises-{type(e).__name__}', tags=tuple(tags))
     scale = max([float(np.max(np.abs(case['w0'])))] + [float(np.max(np.abs(o[0]))) for o in out])
     if not all(np.all(np.isfinite(o[0])) for o in out):
-      return Outcome(oracle_fail=f'{kind}: non-finite server params', key=f'C12/{kind}/non-finite', tags=tuple(tags))
+      bad = next(i for i, o in enumerate(out) if not np.all(np.isfinite(o[0])))
+      return Outcome(oracle_fail=f'round {bad}: {kind} server params {out[bad][0].tolist()} are not finite (FedAvg on the same '
+                     f'finite inputs is){"; client_delta_clip_norm=" + str(case.get("clip")) if kind == "mimelite" else ""}',
+                     key=f'C12/{kind}/non-finite', tags=tuple(tags))
     problems, corr, key = [], [], None
     detail = {'impl': [o[0].tolist() for o in out]}
 
@@ -542,7 +555,9 @@ class C12(core.Property):
       elif kind == 'hyp1':
         ans = [r[0][0] for r in ctx.drv.ask1('c12.hyp', keyed, oc, os_, [w0], mc)]
       elif kind == 'mimelite':
-        ans = ctx.drv.ask1('c12.mimelite', keyed, None, oc, case['lr'], w0, mc)
+        # the model clips with a rational bound: an infinite bound is a bound above every norm
+        mclip = None if case.get('clip') is None else (float(case['clip']) if float(case['clip']) < 1e31 else 10 ** 60)
+        ans = ctx.drv.ask1('c12.mimelite', keyed, mclip, oc, case['lr'], w0, mc)
       elif kind == 'mime':
         ans = ctx.drv.ask1('c12.mime', keyed, oc, case['lr'], w0, mc)
       else:
